@@ -575,10 +575,10 @@ def run(tier):
         chrun.record(ck, r1b, "every single declaration with every ignored decoration before it (global scope)", bound=f"{len(FORMS)} forms x variations x {len(DECOS)} decorations")
         r2 = None
         if tier == "thorough":
-            pair_scopes = [i for i, sc in enumerate(SCOPES) if sc[0] in ("global", "extern-block", "reopened-prefix")]
+            pair_scopes = [i for i, sc in enumerate(SCOPES) if sc[0] in ("global",)]
             shards = [(a, b) for a in pair_scopes for b in range(len(FORMS))]
             r2 = chrun.run(__name__, "h_decl", shards, timeout=1500, globs=dict(PAIRS=True, LEVEL=-1, DECO_MODE=0), pool=pool)
-            chrun.record(ck, r2, "ordered pairs of declarations", bound="all ordered pairs of single declarations with one representative per variation pool, in 3 scopes (global, extern block, re-opened nested namespace)")
+            chrun.record(ck, r2, "ordered pairs of declarations", bound="all ordered pairs of single declarations with one representative per variation pool, at global scope (measured ~150 pairs/s; scope composition of sequences is C12)")
     finally:
         pool.shutdown()
     for shard, args, kw, msg in rv.counterexamples[:1]:
